@@ -12,8 +12,6 @@ set_option linter.unusedSimpArgs false
 set_option linter.unusedVariables false
 
 namespace Acme.Dbc
-set_option profiler true
-set_option profiler.threshold 300
 
 /-- result with remaining tokens -/
 def GoodR {α : Type} (ts : List Token) : PRes α → Prop
@@ -88,22 +86,50 @@ theorem GoodR.map {α β : Type} {ts : List Token} {r : PRes α} (g : α → β)
 theorem GoodR.cons {α : Type} {t : Token} {ts : List Token} {r : PRes α} (h : GoodR ts r) :
     GoodR (t :: ts) r := h.mono (List.suffix_cons _ _)
 
+theorem good_pure_bind {ε α β : Type} (a : α) (f : α → Except ε β) :
+    ((pure a : Except ε α) >>= f) = f a := rfl
+
+theorem good_perr_bind {α β : Type} (m : String) (f : α → Except PErr β) :
+    (perr m >>= f) = perr m := rfl
+
 /-! ## automation -/
 
-/-- closes `GoodR/GoodT/GoodV` goals for the primitive at the head of a bind; extended below -/
-syntax "good_prim" : tactic
+/-- known `GoodR` facts, found by instance resolution (indexed by the parser function) -/
+class GoodC {α : Type} (r : PRes α) (ts : outParam (List Token)) : Prop where
+  out : GoodR ts r
 
-macro_rules | `(tactic| good_prim) => `(tactic| fail "no Good lemma")
+class GoodTC (r : Except PErr (List Token)) (ts : outParam (List Token)) : Prop where
+  out : GoodT ts r
+
+class GoodVC {α : Type} (r : Except PErr α) : Prop where
+  out : GoodV r
+
+theorem GoodR.bindC {α β : Type} {ts : List Token} {r : PRes α} {k : α × List Token → PRes β}
+    [hr : GoodC r ts] (hk : ∀ a ts1, ts1 <:+ ts → GoodR ts1 (k (a, ts1))) :
+    GoodR ts (r >>= k) := GoodR.bind hr.out hk
+
+theorem GoodT.bindC {β : Type} {ts : List Token} {r : Except PErr (List Token)}
+    {k : List Token → PRes β} [hr : GoodTC r ts]
+    (hk : ∀ ts1, ts1 <:+ ts → GoodR ts1 (k ts1)) : GoodR ts (r >>= k) := GoodT.bind hr.out hk
+
+theorem GoodV.bindC {α β : Type} {ts : List Token} {r : Except PErr α} {k : α → PRes β}
+    [hr : GoodVC r] (hk : ∀ a, GoodR ts (k a)) : GoodR ts (r >>= k) := GoodV.bind hr.out hk
 
 /-- walks through a `do` block -/
 macro "good" : tactic => `(tactic| repeat' (first
-  | exact GoodR.ok_self _ _
-  | exact GoodR.pure_self _ _
-  | exact GoodR.perr _ _
-  | (refine GoodR.bind (by good_prim) ?_; intro _ _ _; try dsimp only)
-  | (refine GoodT.bind (by good_prim) ?_; intro _ _; try dsimp only)
-  | (refine GoodV.bind (by good_prim) ?_; intro _; try dsimp only)
+  | with_reducible exact GoodR.ok_self _ _
+  | with_reducible exact GoodR.pure_self _ _
+  | with_reducible exact GoodR.perr _ _
+  | rw [good_pure_bind]
+  | rw [good_perr_bind]
+  | intro _
+  | with_reducible exact GoodC.out
+  | with_reducible refine GoodR.bindC ?_
+  | with_reducible refine GoodT.bindC ?_
+  | with_reducible refine GoodV.bindC ?_
+  | dsimp only
   | split
+  | refine GoodR.bind ?_ ?_
   | refine GoodR.cons ?_))
 
 /-! ## primitives -/
@@ -115,75 +141,75 @@ theorem expectPunct_good (k : PunctKind) (ts : List Token) : GoodT ts (expectPun
     · exact List.suffix_cons _ _
     · exact GoodT.perr _ _
   · exact GoodT.perr _ _
-macro_rules | `(tactic| good_prim) => `(tactic| exact expectPunct_good _ _)
+instance (k : PunctKind) (ts : List Token) : GoodTC (expectPunct k ts) ts := ⟨expectPunct_good k ts⟩
 
 theorem scanNumber_good (m : String) (ts : List Token) : GoodR ts (scanNumber m ts) := by
   unfold scanNumber
   split
   · exact GoodR.ok_tail _ _ _
   · exact GoodR.perr _ _
-macro_rules | `(tactic| good_prim) => `(tactic| exact scanNumber_good _ _)
+instance (m : String) (ts : List Token) : GoodC (scanNumber m ts) ts := ⟨scanNumber_good m ts⟩
 
 theorem scanIdent_good (m : String) (ts : List Token) : GoodR ts (scanIdent m ts) := by
   unfold scanIdent
   split
   · exact GoodR.ok_tail _ _ _
   · exact GoodR.perr _ _
-macro_rules | `(tactic| good_prim) => `(tactic| exact scanIdent_good _ _)
+instance (m : String) (ts : List Token) : GoodC (scanIdent m ts) ts := ⟨scanIdent_good m ts⟩
 
 theorem scanString_good (m : String) (ts : List Token) : GoodR ts (scanString m ts) := by
   unfold scanString
   split
   · exact GoodR.ok_tail _ _ _
   · exact GoodR.perr _ _
-macro_rules | `(tactic| good_prim) => `(tactic| exact scanString_good _ _)
+instance (m : String) (ts : List Token) : GoodC (scanString m ts) ts := ⟨scanString_good m ts⟩
 
 theorem uintOf_good (m v : String) : GoodV (uintOf m v) := by
   unfold uintOf
   split
   · trivial
   · exact GoodV.perr _
-macro_rules | `(tactic| good_prim) => `(tactic| exact uintOf_good _ _)
+instance (m v : String) : GoodVC (uintOf m v) := ⟨uintOf_good m v⟩
 
 theorem intOf_good (m v : String) : GoodV (intOf m v) := by
   unfold intOf
   split
   · trivial
   · exact GoodV.perr _
-macro_rules | `(tactic| good_prim) => `(tactic| exact intOf_good _ _)
+instance (m v : String) : GoodVC (intOf m v) := ⟨intOf_good m v⟩
 
 theorem hexOf_good (hex : Bool) (m v : String) : GoodV (hexOf hex m v) := by
   unfold hexOf
   split
   · trivial
   · exact GoodV.perr _
-macro_rules | `(tactic| good_prim) => `(tactic| exact hexOf_good _ _ _)
+instance (hex : Bool) (m v : String) : GoodVC (hexOf hex m v) := ⟨hexOf_good hex m v⟩
 
 theorem doubleOf_good (m v : String) : GoodV (doubleOf m v) := by
   unfold doubleOf
   split
   · trivial
   · exact GoodV.perr _
-macro_rules | `(tactic| good_prim) => `(tactic| exact doubleOf_good _ _)
+instance (m v : String) : GoodVC (doubleOf m v) := ⟨doubleOf_good m v⟩
 
 theorem scanUint_good (m1 m2 : String) (ts : List Token) : GoodR ts (scanUint m1 m2 ts) := by
   unfold scanUint
   good
-macro_rules | `(tactic| good_prim) => `(tactic| exact scanUint_good _ _ _)
+instance (m1 m2 : String) (ts : List Token) : GoodC (scanUint m1 m2 ts) ts := ⟨scanUint_good m1 m2 ts⟩
 
 theorem scanDouble_good (m1 m2 : String) (ts : List Token) : GoodR ts (scanDouble m1 m2 ts) := by
   unfold scanDouble
   good
-macro_rules | `(tactic| good_prim) => `(tactic| exact scanDouble_good _ _ _)
+instance (m1 m2 : String) (ts : List Token) : GoodC (scanDouble m1 m2 ts) ts := ⟨scanDouble_good m1 m2 ts⟩
 
 theorem parseNodeName_good (ts : List Token) : GoodR ts (parseNodeName ts) := scanIdent_good _ _
-macro_rules | `(tactic| good_prim) => `(tactic| exact parseNodeName_good _)
+instance (ts : List Token) : GoodC (parseNodeName ts) ts := ⟨parseNodeName_good ts⟩
 theorem parseSignalName_good (ts : List Token) : GoodR ts (parseSignalName ts) := scanIdent_good _ _
-macro_rules | `(tactic| good_prim) => `(tactic| exact parseSignalName_good _)
+instance (ts : List Token) : GoodC (parseSignalName ts) ts := ⟨parseSignalName_good ts⟩
 theorem parseEnvVarName_good (ts : List Token) : GoodR ts (parseEnvVarName ts) := scanIdent_good _ _
-macro_rules | `(tactic| good_prim) => `(tactic| exact parseEnvVarName_good _)
+instance (ts : List Token) : GoodC (parseEnvVarName ts) ts := ⟨parseEnvVarName_good ts⟩
 theorem parseMessageID_good (ts : List Token) : GoodR ts (parseMessageID ts) := scanUint_good _ _ _
-macro_rules | `(tactic| good_prim) => `(tactic| exact parseMessageID_good _)
+instance (ts : List Token) : GoodC (parseMessageID ts) ts := ⟨parseMessageID_good ts⟩
 
 /-! ## loops over simple tokens -/
 
@@ -205,7 +231,7 @@ theorem parseCommaIdents_good (m : String) (ts : List Token) :
     first
     | exact ih.cons.cons
     | exact ih
-macro_rules | `(tactic| good_prim) => `(tactic| exact parseCommaIdents_good _ _)
+instance (m : String) (ts : List Token) : GoodC (parseCommaIdents m ts) ts := ⟨parseCommaIdents_good m ts⟩
 
 theorem parseCommaStrings_good (m : String) (ts : List Token) :
     GoodR ts (parseCommaStrings m ts) := by
@@ -220,7 +246,7 @@ theorem parseCommaStrings_good (m : String) (ts : List Token) :
     first
     | exact ih.cons.cons
     | exact ih
-macro_rules | `(tactic| good_prim) => `(tactic| exact parseCommaStrings_good _ _)
+instance (m : String) (ts : List Token) : GoodC (parseCommaStrings m ts) ts := ⟨parseCommaStrings_good m ts⟩
 
 /-! ## sections -/
 
@@ -231,7 +257,7 @@ theorem parseVersion_good (fl : PFlags) (ts : List Token) : GoodR ts (parseVersi
   · split
     · exact GoodR.ok_tail _ _ _
     · exact GoodR.perr _ _
-macro_rules | `(tactic| good_prim) => `(tactic| exact parseVersion_good _ _)
+instance (fl : PFlags) (ts : List Token) : GoodC (parseVersion fl ts) ts := ⟨parseVersion_good fl ts⟩
 
 theorem parseNewSymbolsLoop_good (ts : List Token) : GoodR ts (parseNewSymbolsLoop ts) := by
   fun_induction parseNewSymbolsLoop ts <;>
@@ -246,18 +272,18 @@ theorem parseNewSymbolsLoop_good (ts : List Token) : GoodR ts (parseNewSymbolsLo
     first
     | exact ih.cons
     | exact ih
-macro_rules | `(tactic| good_prim) => `(tactic| exact parseNewSymbolsLoop_good _)
+instance (ts : List Token) : GoodC (parseNewSymbolsLoop ts) ts := ⟨parseNewSymbolsLoop_good ts⟩
 
 theorem parseNewSymbols_good (fl : PFlags) (ts : List Token) :
     GoodR ts (parseNewSymbols fl ts) := by
   unfold parseNewSymbols
   good
-macro_rules | `(tactic| good_prim) => `(tactic| exact parseNewSymbols_good _ _)
+instance (fl : PFlags) (ts : List Token) : GoodC (parseNewSymbols fl ts) ts := ⟨parseNewSymbols_good fl ts⟩
 
 theorem parseBitTiming_good (fl : PFlags) (ts : List Token) : GoodR ts (parseBitTiming fl ts) := by
   unfold parseBitTiming
   good
-macro_rules | `(tactic| good_prim) => `(tactic| exact parseBitTiming_good _ _)
+instance (fl : PFlags) (ts : List Token) : GoodC (parseBitTiming fl ts) ts := ⟨parseBitTiming_good fl ts⟩
 
 theorem GoodR.ok_suffix {α : Type} (x : α) {ts' ts : List Token} (h : ts' <:+ ts) :
     GoodR ts (.ok (x, ts')) := h
@@ -269,7 +295,7 @@ theorem parseNodes_good (fl : PFlags) (ts : List Token) : GoodR ts (parseNodes f
   · refine GoodT.bind (expectPunct_good _ _) ?_
     intro ts1 _
     exact GoodR.ok_suffix _ (parseIdents_suffix ts1)
-macro_rules | `(tactic| good_prim) => `(tactic| exact parseNodes_good _ _)
+instance (fl : PFlags) (ts : List Token) : GoodC (parseNodes fl ts) ts := ⟨parseNodes_good fl ts⟩
 
 theorem parseValueDescriptions_good (ts : List Token) : GoodR ts (parseValueDescriptions ts) := by
   fun_induction parseValueDescriptions ts <;>
@@ -283,12 +309,12 @@ theorem parseValueDescriptions_good (ts : List Token) : GoodR ts (parseValueDesc
     first
     | exact ih.cons.cons
     | exact ih
-macro_rules | `(tactic| good_prim) => `(tactic| exact parseValueDescriptions_good _)
+instance (ts : List Token) : GoodC (parseValueDescriptions ts) ts := ⟨parseValueDescriptions_good ts⟩
 
 theorem parseValueTable_good (ts : List Token) : GoodR ts (parseValueTable ts) := by
   unfold parseValueTable
   good
-macro_rules | `(tactic| good_prim) => `(tactic| exact parseValueTable_good _)
+instance (ts : List Token) : GoodC (parseValueTable ts) ts := ⟨parseValueTable_good ts⟩
 
 theorem parseMuxIndicator_good (v : String) : GoodV (parseMuxIndicator v) := by
   unfold parseMuxIndicator
@@ -311,12 +337,12 @@ theorem parseOptMux_good (ts : List Token) : GoodR ts (parseOptMux ts) := by
       rw [he] at this
       exact this
   · exact GoodR.ok_self _ _
-macro_rules | `(tactic| good_prim) => `(tactic| exact parseOptMux_good _)
+instance (ts : List Token) : GoodC (parseOptMux ts) ts := ⟨parseOptMux_good ts⟩
 
 theorem parseByteOrder_good (ts : List Token) : GoodR ts (parseByteOrder ts) := by
   unfold parseByteOrder
   good
-macro_rules | `(tactic| good_prim) => `(tactic| exact parseByteOrder_good _)
+instance (ts : List Token) : GoodC (parseByteOrder ts) ts := ⟨parseByteOrder_good ts⟩
 
 theorem parseValueType_good (ts : List Token) : GoodR ts (parseValueType ts) := by
   unfold parseValueType
@@ -325,17 +351,17 @@ theorem parseValueType_good (ts : List Token) : GoodR ts (parseValueType ts) := 
     · exact GoodR.ok_tail _ _ _
     · exact GoodR.perr _ _
   · exact GoodR.perr _ _
-macro_rules | `(tactic| good_prim) => `(tactic| exact parseValueType_good _)
+instance (ts : List Token) : GoodC (parseValueType ts) ts := ⟨parseValueType_good ts⟩
 
 theorem parseScaling_good (ts : List Token) : GoodR ts (parseScaling ts) := by
   unfold parseScaling
   good
-macro_rules | `(tactic| good_prim) => `(tactic| exact parseScaling_good _)
+instance (ts : List Token) : GoodC (parseScaling ts) ts := ⟨parseScaling_good ts⟩
 
 theorem parseSignal_good (ts : List Token) : GoodR ts (parseSignal ts) := by
   unfold parseSignal
   good
-macro_rules | `(tactic| good_prim) => `(tactic| exact parseSignal_good _)
+instance (ts : List Token) : GoodC (parseSignal ts) ts := ⟨parseSignal_good ts⟩
 
 theorem parseSignals_good (n : Nat) : ∀ ts : List Token, ts.length < n →
     GoodR ts (parseSignals n ts) := by
@@ -377,12 +403,12 @@ theorem parseSignals_good (n : Nat) : ∀ ts : List Token, ts.length < n →
 
 theorem parseSignals_good' (ts : List Token) : GoodR ts (parseSignals (ts.length + 1) ts) :=
   parseSignals_good _ ts (Nat.lt_succ_self _)
-macro_rules | `(tactic| good_prim) => `(tactic| exact parseSignals_good' _)
+instance (ts : List Token) : GoodC (parseSignals (ts.length + 1) ts) ts := ⟨parseSignals_good' ts⟩
 
 theorem parseMessage_good (ts : List Token) : GoodR ts (parseMessage ts) := by
   unfold parseMessage
   good
-macro_rules | `(tactic| good_prim) => `(tactic| exact parseMessage_good _)
+instance (ts : List Token) : GoodC (parseMessage ts) ts := ⟨parseMessage_good ts⟩
 
 theorem parseMessageTransmitter_good (ts : List Token) :
     GoodR ts (parseMessageTransmitter ts) := by
@@ -394,27 +420,27 @@ theorem parseMessageTransmitter_good (ts : List Token) :
   dsimp only
   refine GoodR.mono ?_ (parseIdents_suffix ts2)
   good
-macro_rules | `(tactic| good_prim) => `(tactic| exact parseMessageTransmitter_good _)
+instance (ts : List Token) : GoodC (parseMessageTransmitter ts) ts := ⟨parseMessageTransmitter_good ts⟩
 
 theorem parseEnvVar_good (ts : List Token) : GoodR ts (parseEnvVar ts) := by
   unfold parseEnvVar
   good
-macro_rules | `(tactic| good_prim) => `(tactic| exact parseEnvVar_good _)
+instance (ts : List Token) : GoodC (parseEnvVar ts) ts := ⟨parseEnvVar_good ts⟩
 
 theorem parseEnvVarData_good (ts : List Token) : GoodR ts (parseEnvVarData ts) := by
   unfold parseEnvVarData
   good
-macro_rules | `(tactic| good_prim) => `(tactic| exact parseEnvVarData_good _)
+instance (ts : List Token) : GoodC (parseEnvVarData ts) ts := ⟨parseEnvVarData_good ts⟩
 
 theorem parseSignalTypeDef_good (ts : List Token) : GoodR ts (parseSignalTypeDef ts) := by
   unfold parseSignalTypeDef
   good
-macro_rules | `(tactic| good_prim) => `(tactic| exact parseSignalTypeDef_good _)
+instance (ts : List Token) : GoodC (parseSignalTypeDef ts) ts := ⟨parseSignalTypeDef_good ts⟩
 
 theorem parseSignalTypeRef_good (ts : List Token) : GoodR ts (parseSignalTypeRef ts) := by
   unfold parseSignalTypeRef
   good
-macro_rules | `(tactic| good_prim) => `(tactic| exact parseSignalTypeRef_good _)
+instance (ts : List Token) : GoodC (parseSignalTypeRef ts) ts := ⟨parseSignalTypeRef_good ts⟩
 
 theorem parseSignalType_good (ts : List Token) : GoodR ts (parseSignalType ts) := by
   unfold parseSignalType
@@ -426,6 +452,172 @@ theorem parseSignalType_good (ts : List Token) : GoodR ts (parseSignalType ts) :
     have h := parseSignalTypeRef_good (Token.number v :: tl)
     split <;> rename_i he <;> rw [he] at h <;> exact h
   · exact GoodR.perr _ _
-macro_rules | `(tactic| good_prim) => `(tactic| exact parseSignalType_good _)
+instance (ts : List Token) : GoodC (parseSignalType ts) ts := ⟨parseSignalType_good ts⟩
+
+theorem parseComment_good (ts : List Token) : GoodR ts (parseComment ts) := by
+  unfold parseComment
+  good
+instance (ts : List Token) : GoodC (parseComment ts) ts := ⟨parseComment_good ts⟩
+
+theorem parseAttributeName_good (ts : List Token) : GoodR ts (parseAttributeName ts) := by
+  unfold parseAttributeName
+  split
+  · split
+    · exact GoodR.perr _ _
+    · exact GoodR.ok_tail _ _ _
+  · exact GoodR.perr _ _
+instance (ts : List Token) : GoodC (parseAttributeName ts) ts := ⟨parseAttributeName_good ts⟩
+
+theorem parseAttributeKind_good (ts : List Token) : GoodR ts (parseAttributeKind ts) := by
+  unfold parseAttributeKind
+  split
+  · exact GoodR.ok_self _ _
+  · split <;> first | exact GoodR.ok_tail _ _ _ | exact GoodR.perr _ _
+  · exact GoodR.perr _ _
+instance (ts : List Token) : GoodC (parseAttributeKind ts) ts := ⟨parseAttributeKind_good ts⟩
+
+theorem parseAttribute_good (hex : Bool) (ts : List Token) : GoodR ts (parseAttribute hex ts) := by
+  unfold parseAttribute
+  good
+instance (hex : Bool) (ts : List Token) : GoodC (parseAttribute hex ts) ts := ⟨parseAttribute_good hex ts⟩
+
+theorem parseAttrVal_good (hex : Bool) (what : String) (ts : List Token) :
+    GoodR ts (parseAttrVal hex what ts) := by
+  unfold parseAttrVal
+  repeat' (first
+    | exact GoodR.ok_tail _ _ _
+    | exact GoodR.perr _ _
+    | split)
+instance (hex : Bool) (what : String) (ts : List Token) : GoodC (parseAttrVal hex what ts) ts := ⟨parseAttrVal_good hex what ts⟩
+
+theorem parseAttributeDefault_good (hex : Bool) (ts : List Token) :
+    GoodR ts (parseAttributeDefault hex ts) := by
+  unfold parseAttributeDefault
+  good
+instance (hex : Bool) (ts : List Token) : GoodC (parseAttributeDefault hex ts) ts := ⟨parseAttributeDefault_good hex ts⟩
+
+theorem parseAttributeValueObject_good (ts : List Token) :
+    GoodR ts (parseAttributeValueObject ts) := by
+  unfold parseAttributeValueObject
+  good
+instance (ts : List Token) : GoodC (parseAttributeValueObject ts) ts := ⟨parseAttributeValueObject_good ts⟩
+
+theorem parseAttributeValue_good (hex : Bool) (ts : List Token) :
+    GoodR ts (parseAttributeValue hex ts) := by
+  unfold parseAttributeValue
+  good
+instance (hex : Bool) (ts : List Token) : GoodC (parseAttributeValue hex ts) ts := ⟨parseAttributeValue_good hex ts⟩
+
+theorem parseValueEncoding_good (ts : List Token) : GoodR ts (parseValueEncoding ts) := by
+  unfold parseValueEncoding
+  good
+instance (ts : List Token) : GoodC (parseValueEncoding ts) ts := ⟨parseValueEncoding_good ts⟩
+
+theorem parseSignalGroup_good (ts : List Token) : GoodR ts (parseSignalGroup ts) := by
+  unfold parseSignalGroup
+  refine GoodR.bind (parseMessageID_good _) ?_
+  intro id ts1 _
+  refine GoodR.bind (scanIdent_good _ _) ?_
+  intro name ts2 _
+  refine GoodR.bind (scanUint_good _ _ _) ?_
+  intro reps ts3 _
+  refine GoodT.bind (expectPunct_good _ _) ?_
+  intro ts4 _
+  dsimp only
+  refine GoodR.mono ?_ (parseIdents_suffix ts4)
+  good
+instance (ts : List Token) : GoodC (parseSignalGroup ts) ts := ⟨parseSignalGroup_good ts⟩
+
+theorem parseSignalExtValueType_good (ts : List Token) :
+    GoodR ts (parseSignalExtValueType ts) := by
+  unfold parseSignalExtValueType
+  good
+instance (ts : List Token) : GoodC (parseSignalExtValueType ts) ts := ⟨parseSignalExtValueType_good ts⟩
+
+theorem parseRangeText_good (v : String) : GoodV (parseRangeText v) := by
+  unfold parseRangeText
+  simp only
+  split
+  · exact GoodV.perr _
+  · split
+    · trivial
+    · exact GoodV.perr _
+
+theorem parseExtendedMuxRange_good (ts : List Token) : GoodR ts (parseExtendedMuxRange ts) := by
+  unfold parseExtendedMuxRange
+  split
+  · rename_i v ts'
+    have := parseRangeText_good v
+    split
+    · exact GoodR.ok_tail _ _ _
+    · rename_i e he
+      rw [he] at this
+      exact this
+  · exact GoodR.perr _ _
+instance (ts : List Token) : GoodC (parseExtendedMuxRange ts) ts := ⟨parseExtendedMuxRange_good ts⟩
+
+theorem parseCommaRanges_good (ts : List Token) : GoodR ts (parseCommaRanges ts) := by
+  fun_induction parseCommaRanges ts <;>
+    first
+    | exact GoodR.ok_self _ _
+    | exact GoodR.perr _ _
+    | skip
+  · rename_i e he
+    have := parseRangeText_good ‹String›
+    simp only [he] at this ⊢
+    exact this
+  all_goals
+    rename_i ih
+    try simp only [*] at ih ⊢
+    first
+    | exact ih.cons.cons
+    | exact ih
+instance (ts : List Token) : GoodC (parseCommaRanges ts) ts := ⟨parseCommaRanges_good ts⟩
+
+theorem parseExtendedMux_good (ts : List Token) : GoodR ts (parseExtendedMux ts) := by
+  unfold parseExtendedMux
+  good
+instance (ts : List Token) : GoodC (parseExtendedMux ts) ts := ⟨parseExtendedMux_good ts⟩
+
+/-! ## the top-level loop -/
+
+theorem parseSection_good (hex : Bool) (k : KeywordKind) (fl : PFlags) (ast : File)
+    (ts : List Token) : GoodR ts (parseSection hex k fl ast ts) := by
+  cases k <;> (simp only [parseSection]; good)
+
+theorem parseLoop_ne_fuel (hex : Bool) (n : Nat) : ∀ (fl : PFlags) (ast : File) (ts : List Token),
+    ts.length < n → parseLoop hex n fl ast ts ≠ .error .fuel := by
+  induction n with
+  | zero => intro fl ast ts h; exact absurd h (Nat.not_lt_zero _)
+  | succ n ih =>
+    intro fl ast ts hlen
+    cases ts with
+    | nil => simp [parseLoop]
+    | cons t ts' =>
+      cases t with
+      | keyword v =>
+        have hsec := parseSection_good hex (getKeywordKind v) fl ast ts'
+        show (match parseSection hex (getKeywordKind v) fl ast ts' with
+          | Except.error e => Except.error e
+          | Except.ok ((ast', fl'), ts') => parseLoop hex n fl' ast' ts') ≠ Except.error PErr.fuel
+        cases he : parseSection hex (getKeywordKind v) fl ast ts' with
+        | error e =>
+          rw [he] at hsec
+          intro h
+          injection h with h
+          exact hsec h
+        | ok p =>
+          obtain ⟨⟨ast'', fl''⟩, ts''⟩ := p
+          rw [he] at hsec
+          have hsuf : ts'' <:+ ts' := hsec
+          apply ih
+          have := hsuf.length_le
+          simp only [List.length_cons] at hlen
+          omega
+      | _ => simp [parseLoop, perr]
+
+/-- the fuel `length + 1` of `parseToks` never runs out -/
+theorem parseToks_ne_fuel (hex : Bool) (ts : List Token) : parseToks hex ts ≠ .error .fuel :=
+  parseLoop_ne_fuel hex _ _ _ ts (Nat.lt_succ_self _)
 
 end Acme.Dbc
